@@ -111,6 +111,13 @@ theorem tiny_droplets_exact (s : Int) (f fuel : Nat) (hs : (s : Rat) ≤ 100 * 2
       ((2 ^ j - 1 : Nat) : Rat) * 50 ≤ max (s : Rat) 0 :=
   tinyDroplets_rat s f fuel hs hf
 
+/-- The `since_last_tick > 80.0` guard is redundant up to 100: for every `since ≤ 100` the loops
+produce no tiny droplet anyway (found by a mutation that moved the constant to 100 and changed
+nothing). Holds in every arithmetic with an irreflexive `<`. -/
+theorem tiny_guard_redundant_below_100 (A : Arith F) (hirr : ∀ x, A.lt x x = false) (fuel : Nat)
+    (since : F) (h : A.lt (A.ofInt 100) since = false) : tinyDroplets A (fuel + 1) since = some 0 :=
+  tinyDroplets_zero_of_le_100 A hirr fuel since h
+
 /-- `since_last_tick` is an `i32` whatever the event times are (`as i32` saturates, the subtraction
 wraps in release builds) … -/
 theorem since_last_tick_is_i32 (A : Arith F) (time last : F) :
